@@ -251,6 +251,40 @@ def dualStep' (st : DualState) (toks : List String) : Option (DualState × Strin
     let a ← st.vals.get? (← i.toNat?)
     let v ← unOp op a
     pure (st, fmtNum v)
+  | ["neut", which, i] => do
+    -- zero + x, x + zero, one * x, x * one with the type's own zero / one (a constant without variables),
+    -- typed or through the Number container (whose zero / one are the floats 0 and 1)
+    let a ← st.vals.get? (← i.toNat?)
+    let (mul, left, container) ← match which with
+      | "za" => some (false, true, false) | "az" => some (false, false, false)
+      | "om" => some (true, true, false) | "mo" => some (true, false, false)
+      | "nza" => some (false, true, true) | "naz" => some (false, false, true)
+      | "nom" => some (true, true, true) | "nmo" => some (true, false, true)
+      | _ => none
+    let c : Float := if mul then 1.0 else 0.0
+    let e : Num := if container then .f64 c else
+      match a with
+      | .f64 _ => .f64 c
+      | .dual _ => .dual (Dual.new c [])
+      | .dual2 _ => .dual2 (Dual2.new c [])
+    let op := if mul then BinOp.mul else BinOp.add
+    match (if left then numberOp op false e a else numberOp op false a e) with
+    | some v => pure (st, fmtNum v)
+    | none => pure (st, "refused")
+  | ["iszero", i] => do
+    let a ← st.vals.get? (← i.toNat?)
+    let z : Bool := match a with
+      | .f64 x => x == 0.0
+      | .dual d => Dual.eq false d (Dual.new 0.0 [])
+      | .dual2 d => Dual2.eq false d (Dual2.new 0.0 [])
+    pure (st, s!"{if z then 1 else 0} {if z then 1 else 0}")
+  | ["isone", i] => do
+    let a ← st.vals.get? (← i.toNat?)
+    let z : Bool := match a with
+      | .f64 x => x == 1.0
+      | .dual d => Dual.eq false d (Dual.new 1.0 [])
+      | .dual2 d => Dual2.eq false d (Dual2.new 1.0 [])
+    pure (st, s!"{if z then 1 else 0}")
   | ["powc", i, p] => do
     let a ← st.vals.get? (← i.toNat?); let p ← parseF? p
     pure (st, fmtNum (powNum a p))
